@@ -66,7 +66,7 @@ func Main(chk *Check, args []string) int {
 		return chk.Replay(c, *replay)
 	}
 	debug.SetGCPercent(800) // the checks allocate small short-lived objects in 16 workers: collect less often
-	o := chk.Run(c)
+	o := runRecovering(chk, c)
 	e := &ev.Evidence{PropertyID: chk.ID, Tier: *tier, Seed: ev.Seed(), Level: o.Level, Coverage: o.Coverage,
 		Assumptions: o.Assumptions, WallS: time.Since(c.Rep.Start).Seconds(), Violations: len(c.Rep.Violations), KnownFindingsHit: c.Rep.KnownHitList()}
 	if err := e.Write(); err != nil {
@@ -87,6 +87,26 @@ func Main(chk *Check, args []string) int {
 		return 2
 	}
 	return c.Rep.Finish()
+}
+
+// runRecovering runs the check; a panic that escapes on the main goroutine (the code under test panicking in a
+// part of the check that has no recovery of its own) becomes a violation with a replay file, not a crash.
+func runRecovering(chk *Check, c *Ctx) (o *Outcome) {
+	defer func() {
+		if r := recover(); r != nil {
+			stack := string(debug.Stack())
+			if len(stack) > 6000 {
+				stack = stack[:6000]
+			}
+			msg := fmt.Sprintf("the code under test panicked: %v\n%s", r, stack)
+			c.Rep.Add(chk.ID+": the code under test panicked", msg, func() string {
+				return ev.WriteReplay(chk.ID, "panic", map[string]any{"property": chk.ID, "violation": msg, "how_to_replay": "./check " + chk.ID})
+			})
+			o = &Outcome{Level: "exploration", Coverage: ev.Coverage{"evaluations": 0, "distinct_nontrivial": 0, "exhaustive": false,
+				"rule": "the run was cut short by a panic of the code under test (reported as a violation)"}}
+		}
+	}()
+	return chk.Run(c)
 }
 
 func envOr(k, d string) string {
